@@ -744,6 +744,39 @@ def run_perm_configs(rep, dh, wd, configs, label="perms"):
     return found
 
 
+def acctmgr_histories(keys, rng, n=6, n_ops=18):
+    """histories in which accounts are locked and unlocked through the account manager between signing requests:
+    Lock/Unlock are granted by the permission on the account ('Lock account' / 'Unlock account'); an explicit Unlock must
+    present the account's own passphrase (wrong ones are tried only on accounts nothing has touched yet: the wallet library
+    keeps a decrypted key for the life of the process); an account the unlocker cannot open signs once it has been unlocked."""
+    H = []
+    for _ in range(n):
+        r = rng.fork()
+        accts, perms, admins = hist.std_config(keys, nacct=5)
+        perms = perms + [("clientlock", "Wallet 1", ["Lock account", "Unlock account"]), ("clientlock", "Wallet 2/Account 4", ["Unlock account"])]
+        cfg = ["nocache"] + hist.config_lines(accts, perms, admins)
+        g = hist.HistGen(r, accts, {"faults": False, "huge": False})
+        passes = {a.path: ("unknown-passphrase" if not a.unlockable else ("pass2" if getattr(a, "pass2", False) else "pass")) for a in accts}
+        ops = []
+        for a in r.shuffle(accts)[:3]:
+            ops.append("unlockacct %s %s %s" % (hx(r.choice(["client1", "clientlock", "client3"])), hx(a.path), hx(r.choice(["wrong", "pass3", "Pass"]))))
+        for _ in range(n_ops):
+            k = r.weighted([("sign", 10), ("lock", 3), ("unlock", 3), ("locked-att", 3)])
+            a = r.choice(accts)
+            if k == "lock":
+                ops.append("lockacct %s %s" % (hx(r.choice(["client1", "clientlock", "client3", "nobody", "client2"])), hx(r.choice([a.path, "Wallet 1/Nope", "Wallet 1"]))))
+            elif k == "unlock":
+                ops.append("unlockacct %s %s %s" % (hx(r.choice(["client1", "clientlock", "clientlock", "client3", "client2"])), hx(a.path), hx(passes[a.path])))
+            elif k == "locked-att":
+                la = [x for x in accts if not x.unlockable][0]
+                ops.append("att %s - n:%s %s -" % (hx("client1"), hx(la.path), g.att_data(la, "att")))
+            else:
+                ops.append(g.op())
+        ops.append("export")
+        H.append({"cfg": cfg, "ops": ops, "accts": accts, "opts": {}})
+    return H
+
+
 def c07(rep, tier, seed, wd, replay):
     import perms
     rep.cov["rule"] = ("permission configurations (1-3 clients x 1-5 ordered entries, wallet/account patterns from a grammar: literals, "
@@ -795,6 +828,12 @@ def c07(rep, tier, seed, wd, replay):
                 cl = h["ops"][i].split()[1]
                 jl.append("jcheck %s %s %s 1" % (cl, hx(byk[key].path), hx(OPNAME[k])))
                 jm.append((hi, i, j))
+            # account-manager requests that were GRANTED: the specification must grant that operation on that account
+            for i, op in enumerate(h["ops"]):
+                f = op.split()
+                if f[0] in ("lockacct", "unlockacct") and i < len(h["impl"]) and h["impl"][i].strip() == "S":
+                    jl.append("jcheck %s %s %s 1" % (f[1], f[2], hx("Lock account" if f[0] == "lockacct" else "Unlock account")))
+                    jm.append((hi, i, 0))
         out = run_model(jl)
         outs = [o for o in out if o.strip()]
         res = [o.strip() for o in outs]
@@ -808,7 +847,8 @@ def c07(rep, tier, seed, wd, replay):
                               {"config": all_h[hi]["cfg"], "ops": all_h[hi]["ops"][:i + 1], "position": j})
                 return True
         return False
-    run_hist_property(rep, tier, seed, wd, "C07", SIGN_KINDS + ("export",), opts, sizes, corpus=False, judges=[judge_released])
+    run_hist_property(rep, tier, seed, wd, "C07", SIGN_KINDS + ("export", "lockacct", "unlockacct"), opts, sizes, corpus=False, judges=[judge_released],
+                      extra_hist=lambda keys, rng: acctmgr_histories(keys, rng, *tier_sizes(tier, (6, 18), (60, 40))))
 
 
 def run_imp_scenarios(rep, dh, wd, scen, label="imp"):
